@@ -24,6 +24,7 @@ import (
 	"strings"
 
 	"github.com/bytedance/sonic"
+	"github.com/bytedance/sonic/ast"
 	"github.com/cloudwego/hertz/internal/bytesconv"
 	"github.com/cloudwego/hertz/pkg/common/utils"
 	"github.com/cloudwego/hertz/pkg/protocol"
@@ -38,19 +39,50 @@ func checkRequireJSON(req *protocol.Request, tagInfo TagInfo) bool {
 	if !strings.EqualFold(utils.FilterContentType(ct), consts.MIMEApplicationJSON) {
 		return false
 	}
-	node, _ := sonic.Get(req.Body(), stringSliceForInterface(tagInfo.JSONName)...)
-	if !node.Exists() {
+	if !jsonKeyExists(req.Body(), tagInfo.JSONName) {
 		idx := strings.LastIndex(tagInfo.JSONName, ".")
 		if idx > 0 {
 			// There should be a superior if it is empty, it will report 'true' for required
-			node, _ := sonic.Get(req.Body(), stringSliceForInterface(tagInfo.JSONName[:idx])...)
-			if !node.Exists() {
+			if !jsonKeyExists(req.Body(), tagInfo.JSONName[:idx]) {
 				return true
 			}
 		}
 		return false
 	}
 	return true
+}
+
+// jsonKeyExists looks the dotted name up the way the body decoder fills fields: a key
+// that is spelled exactly like the name, or else one that equals it ignoring case
+// (the rule of encoding/json, which sonic follows).
+func jsonKeyExists(body []byte, jsonName string) bool {
+	node, _ := sonic.Get(body, stringSliceForInterface(jsonName)...)
+	if node.Exists() {
+		return true
+	}
+	root, err := sonic.Get(body)
+	if err != nil {
+		return false
+	}
+	cur := &root
+	for _, name := range strings.Split(jsonName, ".") {
+		next := cur.Get(name)
+		if !next.Exists() {
+			next = nil
+			_ = cur.ForEach(func(path ast.Sequence, n *ast.Node) bool {
+				if path.Key != nil && strings.EqualFold(*path.Key, name) {
+					next = n
+					return false
+				}
+				return true
+			})
+			if next == nil {
+				return false
+			}
+		}
+		cur = next
+	}
+	return cur.Exists()
 }
 
 func stringSliceForInterface(s string) (ret []interface{}) {
@@ -67,6 +99,5 @@ func keyExist(req *protocol.Request, tagInfo TagInfo) bool {
 	if !strings.EqualFold(utils.FilterContentType(ct), consts.MIMEApplicationJSON) {
 		return false
 	}
-	node, _ := sonic.Get(req.Body(), stringSliceForInterface(tagInfo.JSONName)...)
-	return node.Exists()
+	return jsonKeyExists(req.Body(), tagInfo.JSONName)
 }
